@@ -29,7 +29,14 @@ CIRCUITS = {
     'c2': ('NANGATE', '''module c2 (a, b, c, z); input a, b, c; output z; wire n1, n2;
              NAND2_X1 u1 (.A1(a), .A2(b), .ZN(n1)); NOR2_X1 u2 (.A1(n1), .A2(c), .ZN(n2)); MUX2_X1 u3 (.A(n2), .B(n1), .S(c), .Z(z)); endmodule''',
            {'u1': ('NAND2_X1', ['A1', 'A2'], 'ZN'), 'u2': ('NOR2_X1', ['A1', 'A2'], 'ZN'), 'u3': ('MUX2_X1', ['A', 'B', 'S'], 'Z')}),
+    # second outputs (QN, C1) feeding one-input cells; an open input pin that the SDF block lists before the connected ones
+    'c3': ('SAED90', '''module c3 (a, b, ck, z, y, w); input a, b, ck; output z, y, w; wire q, qn, s, c1;
+             DFFX1 ff (.D(a), .CLK(ck), .Q(q), .QN(qn)); INVX1 i1 (.INP(qn), .ZN(z)); HADDX1 ha (.A0(q), .B0(b), .SO(s), .C1(c1));
+             INVX1 i2 (.INP(c1), .ZN(y)); AND3X1 g (.IN1(), .IN2(s), .IN3(b), .Q(w)); endmodule''',
+           {'ff': ('DFFX1', ['D', 'CLK'], ('Q', 'QN')), 'i1': ('INVX1', ['INP'], 'ZN'), 'ha': ('HADDX1', ['A0', 'B0'], ('SO', 'C1')),
+            'i2': ('INVX1', ['INP'], 'ZN'), 'g': ('AND3X1', ['IN1', 'IN2', 'IN3'], 'Q')}),
 }
+OPEN = {('c3', 'g', 'IN1')}          # unconnected pins: their entries cannot be annotated (a warning); every other entry still must be
 
 
 def sdf_name(n): return n.replace('[', '\\[').replace(']', '\\]')
@@ -55,9 +62,11 @@ def gen_entries(cname, rng):
         tag[0] += 3
         return (tag[0] - 2, tag[0] - 1, tag[0])
     E = []
-    for inst, (kind, ins, out) in cells.items():
+    for inst, (kind, ins, outs) in cells.items():
         for ip in ins:
+            out = outs if isinstance(outs, str) else rng.choice(outs)
             mode = rng.choice(['plain', 'plain', 'edges', 'posonly', 'one-list', 'empty-fall', 'skip'])
+            if (cname, inst, ip) in OPEN: mode = rng.choice(['plain', 'edges', 'one-list'])
             if mode == 'skip': continue
             if mode == 'edges':
                 E.append(('iopath', inst, ip, 'posedge', out, triple('full'), triple('full')))
@@ -77,13 +86,16 @@ def interconnect_candidates(c, cells, lib):
         for ip in ins:
             cell = c.cells[inst]
             l = cell.ins[tl.pin_index(kind, ip)]
+            if l is None: continue
             f = l.driver
             if f.kind != '__fork__' or len([o for o in f.outs if o is not None]) != 1: continue
             up = f.ins[0]
-            root = up.driver
-            while root.kind == '__fork__' and len(root.ins) > 0: root = root.ins[0].driver
+            root, rl = up.driver, up
+            while root.kind == '__fork__' and len(root.ins) > 0: root, rl = root.ins[0].driver, root.ins[0]
             if root.name not in cells: continue                       # driven by a port, not a cell
-            out.append((f'{root.name}/{cells[root.name][2]}', f'{inst}/{ip}', up.index))
+            outs = cells[root.name][2]
+            opin = outs if isinstance(outs, str) else [o for o in outs if tl.pin_index(root.kind, o) == rl.driver_pin][0]
+            out.append((f'{root.name}/{opin}', f'{inst}/{ip}', up.index))
     return out
 
 
@@ -165,7 +177,9 @@ def expected(c, lib, cells, E, I, val):
     tl = getattr(techlib, lib)
     X = {}
     for _, inst, ip, edge, out, r, f in E:
-        line = c.cells[inst].ins[tl.pin_index(cells[inst][0], ip)].index
+        line = c.cells[inst].ins[tl.pin_index(cells[inst][0], ip)]
+        if line is None: continue
+        line = line.index
         ipols = [0] if edge == 'posedge' else ([1] if edge == 'negedge' else [0, 1])
         for opol, t in ((0, r), (1, r if f == 'same' else f)):
             for d in range(3):
